@@ -5119,7 +5119,8 @@ func readOfficialHeader(buf []byte) (size uint32, containerTyper func(index uint
 	}
 	cf := func(index uint, card int) (newType byte) {
 		newType = containerBitmap
-		if card < ArrayMaxSize {
+		// the format stores up to and including 4096 values as an array
+		if card <= ArrayMaxSize {
 			newType = containerArray
 		}
 		return newType
